@@ -88,6 +88,9 @@ func (a *app) handleViewRaw(w http.ResponseWriter, r *http.Request) error {
 	filename := filepath.Join(a.baseDir, fileParam)
 	h, ptsList, err := readWhisperFileRawLocal(filename, retID)
 	if err != nil {
+		if os.IsNotExist(err) {
+			return setRespForNotExistErr(w, err)
+		}
 		return err
 	}
 
